@@ -281,3 +281,164 @@ Definition mon_overrun (c : cfg) (tr : trace) : list failure :=
   if c_raws c || negb (expect_fc c) then []
   else if existsb (fun e => match snd e with HStart _ _ _ (Some _) _ _ _ => true | _ => false end) tr then []
   else let tr := tunnel0 tr in os_fails (fold_left (overrun_step tr) tr (mkOs [] [] [] false)).
+
+(* ---------- the pipeline model (Pipe.v) in lock step with each flow-controlled stream ----------
+   For every stream and direction whose sender is the real library, the model is driven by what
+   the tap shows: a data frame emitted = one PChunk (after a PSubmit when it is an envelope), a
+   data frame delivered = PDeliver, a window update emitted by the receiving endpoint = the
+   PDequeue of an item of that size, a window update delivered = PCredit.  The frame the model's
+   sender would emit next must be exactly the frame the real sender emitted.
+     631 emitted data frame differs from the model's next chunk (kind, announced size or length)
+     632 data frame emitted although the model's sender has no window / no message in progress
+     633 credit delivered differs from the model's next credit in flight *)
+From GT Require Import Frames Pipe.
+
+Definition umsg (n : N) : list unit := repeat tt (N.to_nat n).
+Record pstream := mkPs { ps_key : N * Z * bool; ps_st : pst unit; ps_live : bool }.
+Record pmon := mkPm { pm_streams : list pstream; pm_q : list (N * dir * (Z * fkind)); pm_fails : list failure }.
+
+Definition pkey_eqb (a b : N * Z * bool) : bool :=
+  key_eqb (fst a) (fst b) && Bool.eqb (snd a) (snd b).
+Fixpoint psget (k : N * Z * bool) (l : list pstream) : option pstream :=
+  match l with [] => None | o :: r => if pkey_eqb k (ps_key o) then Some o else psget k r end.
+Fixpoint psset (o : pstream) (l : list pstream) : list pstream :=
+  match l with [] => [o] | x :: r => if pkey_eqb (ps_key o) (ps_key x) then o :: r else x :: psset o r end.
+
+Definition dirb (d : dir) : bool := match d with C2S => true | S2C => false end.
+Definition pipe_step := @pstep unit (N.to_nat chunk_max).
+
+Definition pm_fail (m : pmon) (f : list failure) : pmon := mkPm (pm_streams m) (pm_q m) (pm_fails m ++ f).
+Definition pm_set (m : pmon) (o : pstream) : pmon := mkPm (psset o (pm_streams m)) (pm_q m) (pm_fails m).
+Definition pm_kill (m : pmon) (t : N) (id : Z) : pmon :=
+  let kill d m := match psget (t, id, d) (pm_streams m) with
+                  | Some o => pm_set m (mkPs (ps_key o) (ps_st o) false) | None => m end in
+  kill true (kill false m).
+
+(* skip zero-length items: dequeuing them is invisible on the wire *)
+Fixpoint deq_zeros (fuel : nat) (s : pst unit) : pst unit :=
+  match fuel with
+  | O => s
+  | S k => match p_rq s with
+           | f :: _ => if Nat.eqb (flen f) 0 then match pipe_step s PDequeue with Some s' => deq_zeros k s' | None => s end else s
+           | [] => s
+           end
+  end.
+
+Definition data_emit (m : pmon) (act t : N) (id : Z) (d : dir) (env : option N) (len : N) (swin0 : N) : pmon :=
+  let o := match psget (t, id, dirb d) (pm_streams m) with
+           | Some o => o
+           | None => mkPs (t, id, dirb d) (mkP [] None 0 [] [] 0 RIdle [] [] false [] []) false   (* never announced: not tracked *)
+           end in
+  if negb (ps_live o) then m else
+  let s := ps_st o in
+  let s1 := match env, p_cur s with
+            | Some size, None => match pipe_step s (PSubmit (umsg size)) with Some s' => s' | None => s end
+            | _, _ => s
+            end in
+  match pipe_step s1 PChunk with
+  | None => pm_fail (pm_set m (mkPs (ps_key o) s false)) (fl 632 act id (Z.of_N len))
+  | Some s2 =>
+      let ok := match last (p_sent s2) (More []), env with
+                | Env sz dd, Some size => N.eqb sz size && Nat.eqb (length dd) (N.to_nat len)
+                | More dd, None => Nat.eqb (length dd) (N.to_nat len)
+                | _, _ => false
+                end in
+      if ok then pm_set m (mkPs (ps_key o) s2 true)
+      else pm_fail (pm_set m (mkPs (ps_key o) s2 false))
+                   (fl 631 act id (Z.of_nat (flen (last (p_sent s2) (More [])))))
+  end.
+
+Definition pipe_mon_step (c : cfg) (cwin_t : N) (m : pmon) (e : N * ev) : pmon :=
+  let '(act, e) := e in
+  match e with
+  | Emit d t id k true =>
+      let m := mkPm (pm_streams m) (pm_q m ++ [(t, d, (id, k))]) (pm_fails m) in
+      let real_sender := match d with C2S => negb (c_rawc c) | S2C => negb (c_raws c) end in
+      match k with
+      | KMsg size len => if real_sender then data_emit m act t id d (Some size) len (if dirb d then cwin_t else init_window) else m
+      | KMore len => if real_sender then data_emit m act t id d None len (if dirb d then cwin_t else init_window) else m
+      | KWu n =>
+          (* the receiving endpoint of direction (opp d) returns credit for an item of size n *)
+          if negb real_sender then m else     (* a raw peer does not dequeue: its credit is arbitrary (below) *)
+          match psget (t, id, dirb (opp d)) (pm_streams m) with
+          | Some o =>
+              if negb (ps_live o) then m else
+              let s := deq_zeros (length (p_rq (ps_st o))) (ps_st o) in
+              match p_rq s, pipe_step s PDequeue with
+              | f :: _, Some s' => if Nat.eqb (flen f) (N.to_nat n) then pm_set m (mkPs (ps_key o) s' true)
+                                   else pm_set m (mkPs (ps_key o) s' false)   (* judged by the receiver monitor (612) *)
+              | _, _ => pm_set m (mkPs (ps_key o) s false)
+              end
+          | None => m
+          end
+      | KHalf | KCancel | KClose _ _ | KNil => pm_kill m t id
+      | KNew _ _ rev win _ =>
+          (* both senders of the stream start with the window their peer announced: the client's from
+             the settings frame, the server's from this new_stream frame *)
+          if (rev =? 0)%Z then m else
+          let fresh w0 := mkP [] None (N.to_nat (N.min w0 262144)) [] [] (N.to_nat init_window) RIdle [] [] false [] [] in
+          match psget (t, id, true) (pm_streams m) with
+          | Some _ => m
+          | None => pm_set (pm_set m (mkPs (t, id, true) (fresh cwin_t) (cwin_t <=? 262144)))
+                           (mkPs (t, id, false) (fresh win) (win <=? 262144))
+          end
+      | _ => m
+      end
+  | Deliver d t 1 =>
+      let fix pop (q : list (N * dir * (Z * fkind))) : option (Z * fkind) * list (N * dir * (Z * fkind)) :=
+        match q with
+        | [] => (None, [])
+        | (t', d', x) :: r => if N.eqb t t' && dir_eqb d d' then (Some x, r)
+                              else let '(y, r') := pop r in (y, (t', d', x) :: r')
+        end in
+      let '(x, q') := pop (pm_q m) in
+      let m := mkPm (pm_streams m) q' (pm_fails m) in
+      match x with
+      | Some (id, KMsg _ _) | Some (id, KMore _) =>
+          match psget (t, id, dirb d) (pm_streams m) with
+          | Some o => if negb (ps_live o) then m else
+                      match pipe_step (ps_st o) PDeliver with
+                      | Some s' => pm_set m (mkPs (ps_key o) s' (negb (p_overrun s')))
+                      | None => pm_set m (mkPs (ps_key o) (ps_st o) false)
+                      end
+          | None => m
+          end
+      | Some (id, KWu n) =>
+          let raw_credit := match d with C2S => c_rawc c | S2C => c_raws c end in
+          match psget (t, id, dirb (opp d)) (pm_streams m) with
+          | Some o => if negb (ps_live o) then m else
+                      if raw_credit then
+                        (* credit invented by a raw peer: added to the window as is; absurd amounts (the
+                           uint32 wrap-around is the business of the atomic-level model) end the tracking *)
+                        let s := ps_st o in
+                        if (262144 <? n) then pm_set m (mkPs (ps_key o) s false)
+                        else pm_set m (mkPs (ps_key o)
+                               (mkP (p_submitted s) (p_cur s) (p_swin s + N.to_nat n) (p_wire s) (p_rq s) (p_rwin s) (p_reader s)
+                                    (p_delivered s) (p_credits s) (p_overrun s) (p_sent s) (p_consumed s)) true)
+                      else
+                      match p_credits (ps_st o), pipe_step (ps_st o) PCredit with
+                      | n' :: _, Some s' => if Nat.eqb n' (N.to_nat n) then pm_set m (mkPs (ps_key o) s' true)
+                                            else pm_fail (pm_set m (mkPs (ps_key o) s' false)) (fl 633 act id (Z.of_N n))
+                      | _, _ => pm_set m (mkPs (ps_key o) (ps_st o) false)
+                      end
+          | None => m
+          end
+      | _ => m
+      end
+  | Stim StFail t _ _ | Stim StCtxEnd t _ _ | Stim StChClose t _ _ | Stim StStop t _ _ | ServeRet t _ _ | NetSrvRet t _ | ChanDone t _ =>
+      mkPm (map (fun o => if N.eqb (fst (fst (ps_key o))) t then mkPs (ps_key o) (ps_st o) false else o) (pm_streams m))
+           (filter (fun x => negb (N.eqb (fst (fst x)) t)) (pm_q m)) (pm_fails m)
+  | Ret (Cx r) OCancel _ _ _ _ _ _ _ _ => m
+  | _ => m
+  end.
+
+(* the window a client sender starts with is the one announced in the settings frame *)
+Definition settings_window (tr : trace) : N :=
+  match flat_map (fun e => match snd e with Emit S2C 0 _ (KSettings _ w) _ => [w] | _ => [] end) tr with
+  | w :: _ => w | [] => init_window end.
+
+Definition mon_pipe (c : cfg) (tr : trace) : list failure :=
+  if negb (expect_fc c) && negb (c_raws c) then []
+  else if existsb (fun e => match snd e with HStart _ _ _ (Some _) _ _ _ | NewCall _ _ _ _ _ _ (Some _) _ => true | _ => false end) tr then []
+  else let tr := tunnel0 tr in
+       pm_fails (fold_left (pipe_mon_step c (settings_window tr)) tr (mkPm [] [] [])).
